@@ -231,7 +231,10 @@ def grammar(tier):
         ("volta_12_3", dict(n=5, repeats=[(0, 1)], endings=[("1,2", 1, 1), ("3", 2, 2)])),
         ("dacapo_fine", dict(n=4, dacapo=3, fine=1)),
         ("repeat_then_dacapo_fine", dict(n=4, repeats=[(0, 0)], dacapo=3, fine=1)),
+        ("dacapo_without_fine", dict(n=3, dacapo=2)),
+        ("repeat_then_dacapo_without_fine", dict(n=2, repeats=[(0, 0)], dacapo=1)),
         ("tie_over_repeat_boundary", dict(n=3, repeats=[(0, 1)], tie=1)),
+        ("tie_inside_repeat", dict(n=3, repeats=[(0, 1)], tie=0)),
         ("slur_inside_repeat", dict(n=3, repeats=[(0, 1)], slur=(0, 1))),
         ("ts_change_inside_repeat", dict(n=4, repeats=[(1, 2)], ts_change=2)),
     ]
